@@ -1,6 +1,7 @@
 package props
 
 import (
+	"encoding/hex"
 	"encoding/json"
 	"fmt"
 	"strconv"
@@ -72,6 +73,41 @@ func c10HTTPProbe(w *mintops.W) {
 	if s1 == nil {
 		return
 	}
+	// restore: what comes back for a batch (every order, fully signed or with a never-signed output in it) must pair each
+	// returned output with a signature that verifies for exactly that B_ and unblinds to a proof that verifies with its r
+	never := w.U.Outputs(x.act, 2)
+	for _, batch := range [][]world.Out{{o1[0], o1[1]}, {o1[1], o1[0]}, {o1[0], never[0], o1[1]}, {o1[1], o1[0], never[0]}, {o1[0]}} {
+		r := x.call("POST", "/v1/restore", fmt.Sprintf(`{"outputs":%s}`, outsJSON(batch)))
+		if r.code != 200 {
+			continue
+		}
+		var body struct {
+			Outputs    cashu.BlindedMessages   `json:"outputs"`
+			Signatures cashu.BlindedSignatures `json:"signatures"`
+		}
+		if json.Unmarshal([]byte(r.raw), &body) != nil || len(body.Outputs) != len(body.Signatures) {
+			w.Viol("C10", "http/restore/shape", "restore of %d outputs: %d outputs and %d signatures returned", len(batch), len(body.Outputs), len(body.Signatures))
+			continue
+		}
+		for i, sg := range body.Signatures {
+			K := keys[sg.Amount]
+			if K == nil || sg.DLEQ == nil || !nut12.VerifyBlindSignatureDLEQ(*sg.DLEQ, K, body.Outputs[i].B_, sg.C_) {
+				w.Viol("C10", "http/restore/dleq-invalid-for-paired-output", "restore of a batch of %d: the signature paired with returned output %d does not verify (DLEQ) under the published key for that B_", len(batch), i)
+				break
+			}
+			for _, o := range batch {
+				if o.Msg.B_ == body.Outputs[i].B_ {
+					pr, err := world.Unblind(cashu.BlindedSignatures{sg}, []world.Out{o}, keys)
+					if err == nil && len(pr) == 1 {
+						pr[0].DLEQ = &cashu.DLEQProof{E: sg.DLEQ.E, S: sg.DLEQ.S, R: hex.EncodeToString(o.R.Serialize())}
+					}
+					if err != nil || len(pr) != 1 || !nut12.VerifyProofDLEQ(pr[0], K) {
+						w.Viol("C10", "http/restore/unblinded-proof-invalid", "restore of a batch of %d: unblinding the signature paired with output %d with that output's r does not give a proof that verifies (%v)", len(batch), i, err)
+					}
+				}
+			}
+		}
+	}
 	ps, err := world.Unblind(s1, o1, keys)
 	if err != nil {
 		return
@@ -101,7 +137,7 @@ func init() {
 	enum := p.Run
 	p.Run = func(c *rt.Ctx) {
 		enum(c)
-		c.Cov["rule_history"] = "history part: E3 over the C15 alphabet (mint, swap, melt, internal settlement, rotation, restart) up to the depth bound; every signature returned by the mint is verified against the published key of its keyset and amount (blind-signature DLEQ and proof DLEQ with r)"
+		c.Cov["rule_history"] = "history part: E3 over the C15 alphabet (mint, swap, melt, internal settlement, rotation, restart) up to the depth bound; every signature returned by the mint is verified against the published key of its keyset and amount (blind-signature DLEQ and proof DLEQ with r); in every state restore batches in every order (fully signed, with a never-signed output) must pair each returned B_ with a signature that verifies for it and unblinds with its r"
 		runSpecs(c, c10HistSpecs(c.Quick()))
 	}
 	p.Worker = bfs.Worker(c10HistAll)
